@@ -25,7 +25,7 @@ RULE = ("exhaustive cross product name x schema(None/str/list/tuple/Schema/neste
 ASSUMPTIONS = ["hash collisions between unequal objects are allowed by the contract and are not flagged"]
 ANCHORS = ["Table.__eq__", "Table.__hash__", "Schema.__eq__", "AliasedQuery.__eq__", "AliasedQuery.__hash__",
            "QueryBuilder.__eq__", "QueryBuilder.__hash__", "Term.__hash__", "Term.fields_", "Node.find_"]
-WORKERS = {"quick": 8, "thorough": 16}
+WORKERS = {"quick": 16, "thorough": 16}
 
 
 def table_variants():
@@ -97,7 +97,7 @@ def cases(tier, seed, shard, nshards):
         if k % nshards == shard:
             yield {"k": "other-row", "i": i}
     rnd = random.Random("C17:%d:%d" % (seed, shard))
-    for _ in range((3000 if tier == "quick" else 60000) // nshards):
+    for _ in range((30000 if tier == "quick" else 300000) // nshards):
         yield {"k": "triple", "idx": [rnd.randrange(n) for _ in range(3)]}
     # expressions: exhaustive small shapes
     shapes = []
@@ -119,7 +119,7 @@ def cases(tier, seed, shard, nshards):
         k += 1
         if k % nshards == shard:
             yield s
-    for _ in range((2000 if tier == "quick" else 100000) // nshards):
+    for _ in range((30000 if tier == "quick" else 600000) // nshards):
         yield {"k": "expr", "e": random_expr(rnd, rnd.randint(2, 5))}
     for i in range(len(CONSUMERS)):
         k += 1
